@@ -88,9 +88,15 @@ func init() {
 		Level:       "held on every executed case: complete enumeration of all maps with up to 3 (thorough 4) entries over 4 keys (incl. the zero key, the empty string) x 3 values x five value predicates x all key lists up to length 3, all collections of up to 3 (4) maps from a pool of 8, plus seeded random larger maps; float64-keyed maps holding NaN keys for FilterMap/PickBy/MapValues/Keys/Values/MapSome/MapEvery; each case executed 4 times on freshly built maps; results compared with references as sets/maps or by their defining property",
 		Technique:   "differential monitor + defining-property checkers, each case repeated to sample map iteration orders",
 		Assumptions: []string{"the references are trusted", "Go's per-range random iteration start is the source of iteration-order diversity (4 executions per case)", "Pick with an empty key list returns an error by documentation (only its empty result is checked)"}})
-	reg(&propCfg{ID: "C15", Pkg: "./props/c15", Variants: simple(false),
-		Level:       "held on every executed case: complete enumeration of all strings of up to 4 (thorough 5) symbols over {a,B,é,',*,space} x offsets/lengths/indices/sizes in len±3 x 7 tokens, all strings up to length 6 (7) over the token characters for Unwrap, all 1-3 word phrases over an 8-word vocabulary x 8 separator runs for the case styles, offsets/lengths/indices at the int limits, fields padded to 4-70 KB with tokens of 1-7 bytes, plus seeded random longer inputs (up to 600 symbols) incl. multi-byte runes and NUL; compared with byte-level references and round-trip identities",
-		Technique:   "differential monitor against byte-level references + round-trip identities",
+	reg(&propCfg{ID: "C15", Pkg: "./props/c15", Variants: func(tier string) []variant {
+		vs := []variant{{Name: "main", Shards: 1}}
+		if tier == "thorough" { // plus coverage-guided fuzzing of the same oracle, bounded by executions
+			vs = append(vs, variant{Name: "fuzz", Shards: 1, Fuzz: "FuzzHelpers", FuzzExecs: 3000000, Monitor: "str-random"})
+		}
+		return vs
+	},
+		Level:       "held on every executed case: complete enumeration of all strings of up to 4 (thorough 5) symbols over {a,B,é,',*,space} x offsets/lengths/indices/sizes in len±3 x 7 tokens, all strings up to length 6 (7) over the token characters for Unwrap, all 1-3 word phrases over an 8-word vocabulary x 8 separator runs for the case styles, offsets/lengths/indices at the int limits, fields padded to 4-70 KB with tokens of 1-7 bytes, plus seeded random longer inputs (up to 600 symbols) incl. multi-byte runes and NUL; compared with byte-level references and round-trip identities; thorough tier: additionally 3 000 000 executions of coverage-guided native Go fuzzing over (function, string, token, two ints) against the same oracle",
+		Technique:   "differential monitor against byte-level references + round-trip identities; coverage-guided fuzzing of the same oracle in the thorough tier",
 		Assumptions: []string{"the references are trusted (Substr: out-of-range selection = empty string, as the property restates the PHP rule)", "not asserted: Pad* with an empty token, case mapping/WrapAllRune on invalid UTF-8, the case styles outside ASCII alphanumeric words joined by runs of ' -_&'"}})
 	reg(&propCfg{ID: "C16", Pkg: "./props/c16", Variants: simple(false),
 		Level:       "held on every executed case: every adapter (one per exported slice/map helper, cross-checked against the package's exported functions) x 200 (thorough 2000) generated argument tuples x spare capacity {0,1,8}, and every ordered pair of non-in-place adapters sharing the first argument x 20 (200) tuples; arguments compared with shadow copies incl. sentinel-filled capacity regions, the slice-of-slices behind spread variadic parameters and []map collections tracked slot by slot, earlier results re-read after later calls, also after later IN-PLACE calls on the same argument for every helper that does not return a view, callbacks that re-check the arguments from inside every invocation and callbacks that panic mid-call, the parts of composite results (Zip/Unzip rows, Partition halves, GroupBy groups) probed for shared capacity, spread key lists of Omit/Pick, the function made by Flip called twice",
